@@ -200,7 +200,7 @@ def oracle(case):
     import io
     from rnapolis.parser_v2 import parse_cif_atoms, parse_pdb_atoms, write_cif, write_pdb
 
-    atoms = renumber_models(case["atoms"], case.get("model_numbers"))
+    atoms = big_table(*case["big"]) if case.get("big") else renumber_models(case["atoms"], case.get("model_numbers"))
     single = len({a["model"] for a in atoms}) == 1
     pdb_text = atomtab.emit_pdb(atoms, always_model=True)
     cif_text = atomtab.emit_cif(atoms, case.get("null", "?"))
@@ -361,6 +361,26 @@ def classify(case):
     return bool(labs), labs
 
 
+def big_table(n_atoms, n_chains=3, n_models=1):
+    """a table of n_atoms records per model (residues of 23 atoms, chains of equal share): well inside the PDB limits
+    but far larger than a drawn table - block-wise writing, buffering and per-N-records logic act only here"""
+    names = ["P", "OP1", "OP2", "O5'", "C5'", "C4'", "O4'", "C3'", "O3'", "C2'", "O2'", "C1'", "N9", "C8", "N7", "C5", "C6", "O6", "N1", "C2", "N2", "N3", "C4"]
+    atoms = []
+    for m in range(1, n_models + 1):
+        serial = 1
+        per_chain = (n_atoms + n_chains - 1) // n_chains
+        for k in range(n_atoms):
+            c = k // per_chain
+            r, a = divmod(k % per_chain, len(names))
+            nm = names[a]
+            atoms.append({"record": "ATOM", "serial": serial, "name": nm, "altloc": "", "resname": "G", "chain": "ABCDEFGH"[c],
+                          "resseq": r + 1, "icode": "", "x": round((k % 97) * 1.5 + 0.123, 3), "y": round(((k // 97) % 97) * 1.5 - 7.5, 3),
+                          "z": round((k // 9409) * 1.5 + 0.5 * m, 3), "occ": 1.0, "bfac": round((k % 500) / 10.0, 2),
+                          "element": atomtab.element_of(nm), "charge": 0, "model": m})
+            serial += 1
+    return atoms
+
+
 def _model_numbers():
     from hypothesis import strategies as st
 
@@ -381,14 +401,24 @@ def st_cases():
 
 def plan(tier, seed):
     if tier == "quick":
-        return [{"kind": "tables", "examples": 50, "seed": seed * 1000 + k} for k in range(14)] + \
-               [{"kind": "splitter", "examples": 25, "seed": seed * 1000 + 100 + k} for k in range(4)]
+        return [{"kind": "tables", "examples": 50, "seed": seed * 1000 + k} for k in range(13)] + \
+               [{"kind": "splitter", "examples": 25, "seed": seed * 1000 + 100 + k} for k in range(4)] + \
+               [{"kind": "big", "atoms": 10400, "chains": 3, "models": 1}]
     return [{"kind": "tables", "examples": 1200, "seed": seed * 1000 + k} for k in range(16)] + \
-           [{"kind": "splitter", "examples": 800, "seed": seed * 1000 + 100 + k} for k in range(8)]
+           [{"kind": "splitter", "examples": 800, "seed": seed * 1000 + 100 + k} for k in range(8)] + \
+           [{"kind": "big", "atoms": n, "chains": c, "models": m} for n, c, m in ((10400, 3, 1), (20001, 2, 1), (10000, 1, 1), (10001, 4, 2), (33000, 5, 1))]
 
 
 def run_shard(spec) -> ShardResult:
     res = ShardResult()
+    if spec["kind"] == "big":
+        from rnaverif.runner import check_case
+
+        case = {"big": [spec["atoms"], spec["chains"], spec["models"]]}
+        check_case(PROP_ID, oracle, case, res)
+        res.note_case(case, True, [f"table-of-{spec['atoms'] // 10000 * 10000}+-atoms-per-model"])
+        res.exhaustive = False
+        return res
     if spec["kind"] == "splitter":
         from hypothesis import strategies as st
 
